@@ -53,9 +53,6 @@ proof fn lemma_jac_prefix(rword: &WordView, qword: &WordView)
 // ---- C04 (word level): a record word of >= 5 characters, three of them different, and a query word that is one edit away from it
 // (substitution, insertion, deletion, adjacent transposition) are a pair that word_match cannot refuse: within one edit (DL-edit1,
 // dl/laws.rs) and through the Jaccard gate (lemma_jac_gate_near, jaccard/laws.rs)
-pub open spec fn three_letters(w: Seq<char>) -> bool {
-    exists|i: int, j: int, k: int| 0 <= i < w.len() && 0 <= j < w.len() && 0 <= k < w.len() && #[trigger] w[i] != #[trigger] w[j] && w[i] != #[trigger] w[k] && w[j] != w[k]
-}
 // the Jaccard gate: the character sets differ by at most one member each way
 proof fn lemma_jac_edit1(rword: &WordView, qword: &WordView, x: char, z: char)
     requires rword.wfs(), qword.wfs(), rword.small(), qword.small(), qword.vlen() + 1 >= rword.vlen(), three_letters(rword.vchars()),
@@ -68,13 +65,6 @@ proof fn lemma_jac_edit1(rword: &WordView, qword: &WordView, x: char, z: char)
     let (i, j, k) = choose|i: int, j: int, k: int| 0 <= i < r.len() && 0 <= j < r.len() && 0 <= k < r.len() && #[trigger] r[i] != #[trigger] r[j] && r[i] != #[trigger] r[k] && r[j] != r[k];
     assert(r.contains(r[i]) && r.contains(r[j]) && r.contains(r[k]));
     lemma_jac_gate_near(a, qword.vchars(), x, z, r[i], r[j], r[k]);
-}
-// the four kinds of edit, r = record word characters, q = query word characters
-pub open spec fn is_sub(r: Seq<char>, q: Seq<char>, p: int) -> bool { 0 <= p < r.len() && r.len() == q.len() && forall|t: int| 0 <= t < r.len() && t != p ==> r[t] == q[t] }
-pub open spec fn is_ins(r: Seq<char>, q: Seq<char>, p: int) -> bool { 0 <= p <= r.len() && q.len() == r.len() + 1 && (forall|t: int| 0 <= t < p ==> r[t] == q[t]) && (forall|t: int| p <= t < r.len() ==> r[t] == q[t + 1]) }
-pub open spec fn is_del(r: Seq<char>, q: Seq<char>, p: int) -> bool { is_ins(q, r, p) }
-pub open spec fn is_trans(r: Seq<char>, q: Seq<char>, p: int) -> bool {
-    0 <= p && p + 1 < r.len() && r.len() == q.len() && r[p] == q[p + 1] && r[p + 1] == q[p] && r[p] != r[p + 1] && forall|t: int| 0 <= t < r.len() && t != p && t != p + 1 ==> r[t] == q[t]
 }
 proof fn lemma_c04_word(rword: &WordView, qword: &WordView, p: int)
     requires rword.wfs(), qword.wfs(), rword.small(), qword.small(), !qword.fin, rword.vlen() >= 5, three_letters(rword.vchars()),
